@@ -402,6 +402,13 @@ class PolyFacet:
                 aid = self.atom((SUM_FUNCS[q], a.rat.key(), tuple(sorted(a.zc))), kind=SUM_FUNCS[q],
                                 inner=a, node=n)
                 return Val(Rat(self.atom_poly(aid)))
+            if q in SUM_FUNCS and len(args) >= 1 and ("axis" in kwn or len(args) == 2):
+                # reduction along one axis: still linear in its argument
+                a = self.of(args[0])
+                axn = n.args[1 + n.attr[1] + list(kwn).index("axis")] if "axis" in kwn else args[1]
+                aid = self.atom((SUM_FUNCS[q], a.rat.key(), tuple(sorted(a.zc)), self.g.vn(axn)),
+                                kind=SUM_FUNCS[q], inner=a, node=n)
+                return Val(Rat(self.atom_poly(aid)))
             if q == "numpy.where" and len(args) == 3:
                 z = self.of(args[2]).rat.is_const()
                 if z == 0:
@@ -419,6 +426,8 @@ class PolyFacet:
             return self.node_atom(n)
         if op == "MCall" and n.attr[0] in ("copy", "astype", "squeeze") and n.args:
             return self.of(n.args[0])
+        if op == "Attr" and n.attr == "T" and self.gather_transparent:
+            return self.of(n.args[0])       # transposition does not change per-element algebra
         return self.node_atom(n)
 
     def apply_fn(self, name, av, node=None) -> Val:
